@@ -478,7 +478,15 @@ func (w *c18world) variants(doc *jmut.Node, rngPick func(n int) int, full bool) 
 					}
 					sort.Strings(vals)
 				}
-				for _, v := range append(sample(vals, 12), "ZZZZ", "", "zz") {
+				// near misses of defined values: other letter case, a character more or less
+				near := []string{}
+				for _, v := range append(sample(vals, 4), m.Val.S) {
+					if v == "" {
+						continue
+					}
+					near = append(near, strings.ToLower(v), strings.ToUpper(v), v+"0", v+"x", v[:len(v)-1], " "+v, v+" ")
+				}
+				for _, v := range append(append(sample(vals, 12), "ZZZZ", "", "zz"), near...) {
 					d := doc.Clone()
 					e := d.At(p)
 					e.M[mi].Val = jmut.S(v)
